@@ -458,16 +458,43 @@ struct Case {
     pw: Vec<u64>,
 }
 
-/// Answer delays as one token: `-` = empty list, `x` = this ping is never answered.
+/// Answer delays as one token: `-` = empty list, `x` = this ping is never answered, `d*n` = `n` times `d`
+/// (written for runs of four or more: a peer that answers at once for a hundred days is `0*100`).
 fn delays_tok(v: &[Option<u64>]) -> String {
-    if v.is_empty() { "-".into() } else { v.iter().map(|d| d.map_or_else(|| "x".to_string(), |x| x.to_string())).collect::<Vec<_>>().join(",") }
+    if v.is_empty() {
+        return "-".into();
+    }
+    let one = |d: &Option<u64>| d.map_or_else(|| "x".to_string(), |x| x.to_string());
+    let mut out: Vec<String> = vec![];
+    let mut k = 0;
+    while k < v.len() {
+        let n = v[k..].iter().take_while(|d| **d == v[k]).count();
+        if n >= 4 {
+            out.push(format!("{}*{n}", one(&v[k])));
+        } else {
+            out.extend(std::iter::repeat_n(one(&v[k]), n));
+        }
+        k += n;
+    }
+    out.join(",")
 }
 
 fn parse_delays(v: &str) -> Option<Vec<Option<u64>>> {
     if v == "-" {
         return Some(vec![]);
     }
-    v.split(',').map(|d| if d == "x" { Some(None) } else { d.parse().ok().map(Some) }).collect()
+    let one = |d: &str| -> Option<Option<u64>> { if d == "x" { Some(None) } else { d.parse().ok().map(Some) } };
+    let mut out = vec![];
+    for part in v.split(',') {
+        match part.split_once('*') {
+            Some((d, n)) => {
+                let n: usize = n.parse().ok().filter(|n| *n <= 1_000_000)?;
+                out.extend(std::iter::repeat_n(one(d)?, n));
+            }
+            None => out.push(one(part)?),
+        }
+    }
+    Some(out)
 }
 
 fn csv(v: &[u64]) -> String {
@@ -939,6 +966,137 @@ fn gen_builder_seq(r: &mut Rng) -> Vec<Setter> {
             },
         })
         .collect()
+}
+
+// ---------------------------------------------------------------------------------------------
+// Long uptime: intervals of minutes to days, weeks and months of model time before anything happens
+// ---------------------------------------------------------------------------------------------
+
+const MINUTE: u64 = 60_000;
+const HOUR: u64 = 60 * MINUTE;
+const DAY: u64 = 24 * HOUR;
+
+/// Uptimes (ms) at which a counter of elapsed time narrower than 64 bits wraps or saturates:
+/// 2^31 / 2^32 microseconds (35.8 / 71.6 min), 2^16 seconds (18.2 h), 2^31 / 2^32 milliseconds
+/// (24.9 / 49.7 days). All time arithmetic of the harness and of the model is u64 / `Nat` milliseconds.
+const UPTIME_MARKS: [(&str, u64); 5] =
+    [("2^31us", (1 << 31) / 1000), ("2^32us", (1 << 32) / 1000), ("2^16s", (1 << 16) * 1000), ("2^31ms", 1 << 31), ("2^32ms", 1 << 32)];
+
+/// A peer that answers the first `n` pings (ping `k`, sent at `k * iv`, after `delay(k)` ms) and is
+/// silent from then on: the task has to end with a keepalive timeout in (T, T + I] after the last pong.
+fn long_uptime_dead(calls: Vec<Setter>, iv: u64, tv: u64, n: u64, mut delay: impl FnMut(u64) -> u64) -> Case {
+    let delays: Vec<Option<u64>> = (0..n).map(|k| Some(delay(k))).collect();
+    let last_pong = (0..n).map(|k| k * iv + delays[k as usize].unwrap_or(0)).max().unwrap_or(0);
+    Case { calls, delays, rest: None, horizon: ((last_pong + tv) / iv + 6) * iv + 1, ..Case::plain() }
+}
+
+/// The mirror: a peer that answers every ping after `d` ms, for `ticks` intervals: never timed out.
+fn long_uptime_live(calls: Vec<Setter>, iv: u64, d: u64, ticks: u64) -> Case {
+    Case { calls, delays: vec![], rest: Some(d), horizon: ticks * iv + 1, ..Case::plain() }
+}
+
+/// The fixed part of the family. `full`: the larger grid of the thorough tier.
+fn long_uptime_grid(full: bool) -> Vec<Case> {
+    let mut v = vec![];
+    let ivs: &[u64] = if full { &[DAY, 6 * HOUR, 12 * HOUR, 7 * HOUR, 2 * DAY] } else { &[DAY, 6 * HOUR] };
+    for &iv in ivs {
+        // (a T that is not a multiple of I is safe here: every answer comes within one interval)
+        let tvs: &[u64] = if full { &[iv, 2 * iv, 3 * iv, iv + iv / 2, 5 * iv] } else { &[iv, 2 * iv, 3 * iv] };
+        for &tv in tvs {
+            let calls = |order: u64| match order % 3 {
+                0 => vec![Setter::I(Some(iv)), Setter::T(Some(tv))],
+                1 => vec![Setter::T(Some(tv)), Setter::I(Some(iv))],
+                _ => vec![Setter::I(Some(3000)), Setter::T(Some(tv)), Setter::I(Some(iv))],
+            };
+            // the peer answers at once for N days, then falls silent
+            for (j, days) in [10u64, 24, 25, 49, 50, 52, 60, 100].into_iter().enumerate() {
+                v.push(long_uptime_dead(calls(if full { j as u64 } else { 0 }), iv, tv, (days * DAY).div_ceil(iv), |_| 0));
+            }
+            // ... and one that keeps answering for 120 days
+            v.push(long_uptime_live(calls(0), iv, 0, (120 * DAY).div_ceil(iv)));
+            if full {
+                // the last pong just before / at / just after each mark, and within T before it
+                for (_, mark) in UPTIME_MARKS {
+                    if mark / iv > 600 || mark < 2 * iv {
+                        continue;
+                    }
+                    let k = mark / iv; // ping k is the last one sent before (or at) the mark
+                    for (n, d) in [(k, 0), (k + 1, 0), (k + 1, (mark - k * iv).saturating_sub(1)), (k + 1, mark - k * iv), (k + 1, (mark - k * iv + 1).min(iv - 1)), (k + 2, 0), ((k + 1).saturating_sub(tv / iv), 0)] {
+                        if n == 0 {
+                            continue;
+                        }
+                        v.push(long_uptime_dead(calls(n), iv, tv, n, |j| if j + 1 == n { d } else { 0 }));
+                    }
+                }
+                v.push(long_uptime_live(calls(1), iv, iv - 1, (120 * DAY).div_ceil(iv)));
+                v.push(long_uptime_live(calls(2), iv, iv.min(5 * MINUTE), (120 * DAY).div_ceil(iv)));
+            }
+        }
+    }
+    if full {
+        // shorter intervals around the marks that are hours, not weeks, away
+        for (iv, marks) in [(MINUTE, &UPTIME_MARKS[..2]), (10 * MINUTE, &UPTIME_MARKS[..3]), (HOUR, &UPTIME_MARKS[2..3])] {
+            for tv in [iv, 2 * iv, 3 * iv] {
+                for (_, mark) in marks {
+                    let k = mark / iv;
+                    if k > 600 {
+                        continue;
+                    }
+                    for n in [k.saturating_sub(3), k, k + 1, k + 2, k + 5] {
+                        v.push(long_uptime_dead(vec![Setter::I(Some(iv)), Setter::T(Some(tv))], iv, tv, n.max(1), |_| 0));
+                    }
+                    v.push(long_uptime_live(vec![Setter::I(Some(iv)), Setter::T(Some(tv))], iv, 0, k + 40));
+                }
+            }
+        }
+        // a timeout that is itself longer than 2^32 ms: silent from the start / after five days
+        for tv in [30 * DAY, 50 * DAY, 60 * DAY] {
+            for n in [0u64, 5] {
+                v.push(long_uptime_dead(vec![Setter::I(Some(DAY)), Setter::T(Some(tv))], DAY, tv, n, |_| 0));
+            }
+        }
+    }
+    v
+}
+
+/// The random part of the family: an interval of a minute to two days, a timeout of one to five
+/// intervals, a peer that answers promptly (each answer within one interval) until an uptime chosen
+/// near one of the marks or anywhere up to 130 days, and then falls silent -- or never does.
+fn gen_long_uptime(r: &mut Rng) -> Case {
+    const IVS: [u64; 9] = [MINUTE, 10 * MINUTE, HOUR, 6 * HOUR, 7 * HOUR, 12 * HOUR, DAY, DAY + 1, 2 * DAY];
+    const MAX_TICKS: u64 = 640;
+    let up = if r.chance(2, 3) {
+        let (_, m) = *r.pick(&UPTIME_MARKS);
+        m
+    } else {
+        r.range(DAY, 130 * DAY)
+    };
+    let fit: Vec<u64> = IVS.iter().copied().filter(|iv| up / iv + 8 <= MAX_TICKS && up / iv >= 2).collect();
+    let iv = *r.pick(&fit);
+    let tv = match r.below(7) {
+        0 | 1 => iv,
+        2 | 3 => 2 * iv,
+        4 => 3 * iv,
+        5 => iv + iv / 2,
+        _ => 5 * iv,
+    };
+    // the number of answered pings: the last answered one is sent within a few intervals of `up`
+    let n = (up / iv + 1 + r.below(4 + tv / iv)).saturating_sub(r.below(4 + tv / iv)).clamp(1, MAX_TICKS);
+    let calls = gen_calls(r, Some(iv), Some(tv));
+    let style = r.below(4);
+    let c = r.range(0, (iv - 1).min(5 * MINUTE));
+    let mut delay = |r: &mut Rng| match style {
+        0 | 1 => 0,
+        2 => c,
+        _ => r.range(0, iv - 1),
+    };
+    if r.chance(1, 4) {
+        let d = delay(r);
+        long_uptime_live(calls, iv, d, (n + r.range(2, 40)).min(MAX_TICKS + 40))
+    } else {
+        let ds: Vec<u64> = (0..n).map(|_| delay(r)).collect();
+        long_uptime_dead(calls, iv, tv, n, |k| ds[k as usize])
+    }
 }
 
 // ---------------------------------------------------------------------------------------------
